@@ -23,7 +23,7 @@ func checkC17(c *core.Ctx, r *core.Report) {
 		"(2) PAIR/LOCKORDER on the query-table locks (arqMapLock, waitingQueriesLock, RunningQueryState.rqsLock, …) in the query front-end packages; " +
 		"(3) no blocking channel send while the global running-queries lock may be held (a full StateChan would block every other query), except on a channel created in the same function; " +
 		"(4) ASSERT — in the PromQL front end and in the Elasticsearch query-DSL walker (pkg/es/query) every unchecked type assertion on an interface value is dominated by a successful comma-ok/type-switch test of the same value to the same type, is trivially true, or asserts a parameter that every static caller passes as a value of that static type or after its own successful type test; " +
-		"(5) TABLE — every QueryState constant sent on a state channel is a case of RunQueryForNewPipeline's state switch."
+		"(6) the SQL front end re-enters itself only with a text that a regexp replacement, guarded by a successful match of the same pattern on the same text, has rewritten (progress of the recursion); (5) TABLE — every QueryState constant sent on a state channel is a case of RunQueryForNewPipeline's state switch."
 	r.NotCovered = "parser termination and determinism, bounded answer time, goroutine leaks other than through the lifecycle pairing, admission-limit arithmetic, panics from other causes (index, nil)"
 	a := lockAnalysis(c)
 
@@ -184,6 +184,72 @@ func checkC17(c *core.Ctx, r *core.Report) {
 		}
 	}
 	r.Floor("ASSERT", "unchecked-form assertions in the Elasticsearch query-DSL walker", nEs, 10)
+
+	// ---------------------------------------------------------------- (6) the SQL front end's self-recursion makes progress
+	{
+		conv := c.Fn("pkg/ast/sql", "ConvertToASTNodeSQL")
+		nRec := 0
+		for i, call := range callsTo(conv, conv.Object()) {
+			nRec++
+			construct := fmt.Sprintf("sql.ConvertToASTNodeSQL:self-call#%d-re-enters-with-a-rewritten-text", i+1)
+			// the text argument is the result of a rewrite function
+			var rewrite *ssa.Function
+			if ex, ok := call.Call.Args[0].(*ssa.Extract); ok {
+				if rc, ok := ex.Tuple.(*ssa.Call); ok {
+					rewrite = rc.Call.StaticCallee()
+				}
+			} else if rc, ok := call.Call.Args[0].(*ssa.Call); ok {
+				rewrite = rc.Call.StaticCallee()
+			}
+			if rewrite == nil || rewrite.Blocks == nil {
+				r.Violation("ORDER", construct, c.Pos(call.Pos()), "ConvertToASTNodeSQL calls itself with a text that is not the result of a rewrite step: the recursion need not terminate (stack overflow is not recoverable and ends the process)")
+				continue
+			}
+			// in the rewrite function every success return yields R.ReplaceAllString(x, …) under R.MatchString(x) == true
+			okAll, nSucc := true, 0
+			why := ""
+			for _, ret := range core.Returns(rewrite) {
+				if core.ReturnSuccess(ret) == core.No {
+					continue
+				}
+				nSucc++
+				rep, ok := core.RetResult(ret, 0).(*ssa.Call)
+				if !ok {
+					okAll, why = false, "a success return does not yield the result of the replacement"
+					continue
+				}
+				rf := core.CalleeFunc(rep)
+				if rf == nil || !strings.HasPrefix(rf.Name(), "ReplaceAll") || len(rep.Call.Args) < 2 {
+					okAll, why = false, "a success return does not yield the result of a regexp replacement"
+					continue
+				}
+				re, subject := rep.Call.Args[0], rep.Call.Args[1]
+				matched := false
+				for _, b := range rewrite.Blocks {
+					for _, in := range b.Instrs {
+						mc, ok := in.(*ssa.Call)
+						if !ok {
+							continue
+						}
+						mf := core.CalleeFunc(mc)
+						if mf == nil || !strings.HasPrefix(mf.Name(), "Match") || len(mc.Call.Args) < 2 {
+							continue
+						}
+						if mc.Call.Args[0] == re && mc.Call.Args[1] == subject && core.BoolKnownAt(mc, ret.Block()) == core.Yes {
+							matched = true
+						}
+					}
+				}
+				if !matched {
+					okAll, why = false, "the replacement is not guarded by a successful match of the same regular expression on the same text"
+				}
+			}
+			r.Check(okAll && nSucc > 0, "ORDER", construct, c.Pos(call.Pos()),
+				"the text passed to the recursive call was produced by a regexp replacement whose pattern is known to have matched",
+				"ConvertToASTNodeSQL re-enters itself with the text returned by "+rewrite.Name()+", and "+why+": a statement the guard accepts but the pattern does not match (e.g. a mixed-case DESCRIBE) is returned unchanged, the recursion never ends and the stack overflow terminates the process")
+		}
+		r.Floor("ORDER", "self-recursive calls of ConvertToASTNodeSQL", nRec, 1)
+	}
 	if os.Getenv("VERIF_EXPLORE_ASSERT") != "" {
 		per := map[string]int{}
 		for _, fn := range c.RepoFunctions() {
